@@ -241,6 +241,10 @@ def run(ctx):
     from .c07 import check_fresh_namespace
     check_fresh_namespace(ctx, "R16.7")
 
+    # ------------------------------------------------------------------ rules of sibling properties that rdump's contract rests on
+    ctx.import_rule("C15", "R15.2", "R16.8", "--multi-timestamp expands each record with iter_timestamped_records: every expansion reads the ORIGINAL record")
+    ctx.import_rule("C20", "R20.2", "R16.9", "-m csv / -w csvfile: the same records come out whatever the writer - the CSV writer starts a new header whenever the record type changes")
+
 
 
 def _in_nested_loop(node, outer):
